@@ -1,6 +1,7 @@
 import Chain33Model.Proofs.C01Batch
 import Chain33Model.Proofs.C01Store
 import Chain33Model.Proofs.C01Consistent
+import Chain33Model.Proofs.C01Remove
 /-!
 C01 — State tree behaves as a persistent versioned map.  Property theorems only (helpers: Proofs/C01*.lean).
 
@@ -200,5 +201,47 @@ theorem hashNode_keys_content {H : Bytes → Bytes} (cfg : Cfg) (hpf : cfg.pfx =
 example (H : Bytes → Bytes) : DBInv H Cfg.default {} ∧ PHoF H (.leaf [1] [2] Meta.fresh) ∧
     KeyMin (.leaf [1] [2] Meta.fresh) ∧ C03.Shape (.leaf [1] [2] Meta.fresh) :=
   ⟨fun k v h => by simp at h, Or.inl rfl, trivial, trivial⟩
+
+/-! ### removal (`Tree.Remove` / `DelKVPair`) -/
+
+/-- **remove_inv** — `Node.remove` never panics and, when it rebuilds the subtree, keeps the search-tree order, the
+stored height/size fields with the AVL balance, and "inner key = leftmost key of the right subtree" (that is what the
+`newKey` propagation is for); one leaf less, at most one level less. -/
+theorem remove_inv (t : Node) (key : Bytes) (hst : ST t) (hwf : WF t) (hkm : KeyMin t) :
+    ∃ res, t.remove key = some res ∧
+      ∀ n' nkey v, res = .replaced n' nkey v →
+        ST n' ∧ WF n' ∧ KeyMin n' ∧ n'.size + 1 = t.size ∧ n'.height ≤ t.height ∧ t.height ≤ n'.height + 1 := by
+  obtain ⟨res, e, ok⟩ := remove_spec t key hst hkm
+  refine ⟨res, e, ?_⟩
+  intro n' nkey v hr
+  subst hr
+  obtain ⟨_, _, o3, o4, _, _⟩ := ok
+  obtain ⟨w, a, b, c⟩ := remove_WF t key hwf n' nkey v e
+  exact ⟨o3, w, o4, a, b, c⟩
+
+/-- **get_remove** — `Tree.Remove` returns the value the key had, the new tree satisfies the invariant, its leaf list
+is the old one without that key, and reading any key afterwards gives nothing for the removed key and the old answer
+for every other key. -/
+theorem get_remove (t : Tree) (k : Bytes) (hi : TInvK t) :
+    ∃ t' v, Tree.remove t k = some (t', v) ∧ TInvK t' ∧ v = (Tree.get t k).2 ∧
+      Tree.toList t' = dropKey k (Tree.toList t) ∧
+      ∀ k', (Tree.get t' k').2 = if k' = k then none else (Tree.get t k').2 := by
+  obtain ⟨t', v, e, hi', hv, hl⟩ := Tree.remove_spec t k hi
+  refine ⟨t', v, e, hi', hv, hl, ?_⟩
+  intro k'
+  have g1 : (Tree.get t' k').2 = SMap.lookup k' (Tree.toList t') := by
+    cases t' with
+    | none => rfl
+    | some n => exact get_eq_lookup n k' hi'.1
+  have g2 : (Tree.get t k').2 = SMap.lookup k' (Tree.toList t) := by
+    cases t with
+    | none => rfl
+    | some n => exact get_eq_lookup n k' hi.1
+  rw [g1, hl, lookup_dropKey, g2]
+
+/-- non-vacuity: a two-leaf tree satisfies `TInvK`. -/
+example : TInvK (some (.inner [98] 1 2 (.leaf [97] [1] Meta.fresh) (.leaf [98] [2] Meta.fresh) Meta.fresh)) := by
+  refine ⟨⟨trivial, trivial, ?_, ?_⟩, ⟨trivial, trivial, rfl, rfl, by decide, by decide⟩, ⟨trivial, trivial, rfl⟩⟩ <;>
+    simp [lt, le, cmpB]
 
 end C01
